@@ -241,8 +241,12 @@ pub fn load_findings(path: &str) -> Result<Vec<Finding>, String> {
 pub fn run_all(m: &dyn Monitor, tier: Tier, seed: u64) -> Agg {
     let gens = m.gens(tier);
     let mut cases: Vec<(usize, u64)> = Vec::new();
+    // NV_SAMPLE=k (reach audit under coverage instrumentation only, see coverage.sh): every
+    // k-th case of the larger generators. Never set by a registered command.
+    let sample: u64 = std::env::var("NV_SAMPLE").ok().and_then(|s| s.trim().parse().ok()).unwrap_or(1).max(1);
     for (gi, (_, n)) in gens.iter().enumerate() {
-        for i in 0..*n {
+        let step = if *n > 1000 { sample } else { 1 };
+        for i in (0..*n).step_by(step as usize) {
             cases.push((gi, i));
         }
     }
